@@ -93,8 +93,8 @@ int g_same_as_top;          /* the new value equals the innermost open region */
 #define WRITABLE(c) (!((c)->is_dirty && !(c)->prop[CHAN_DIRTY_WRITE]))
 
 /* witnesses for replay */
-int w_type, w_dirty, w_dw, w_ad, w_id, w_n, w_cbnull;
-int64_t w_vt, w_vi, w_last_t, w_last_i, w_top_t, w_top_i;
+int w_type, w_dirty, w_dw, w_ad, w_id, w_n, w_cbnull, w_cbret;
+int64_t w_vt, w_vi, w_last_t, w_last_i, w_top_t, w_top_i, w_single_t, w_single_i;
 #define WITNESS_CHAN(c) ( w_type == (int)(c)->type && w_dirty == (c)->is_dirty && \
 	w_dw == (c)->prop[CHAN_DIRTY_WRITE] && w_ad == (c)->prop[CHAN_ALLOW_DUP] && \
 	w_id == (c)->prop[CHAN_IGNORE_DUP] && w_n == spec_n(c) && w_cbnull == ((c)->dirty_cb == NULL) && \
@@ -110,8 +110,9 @@ WITNESS(chan_push);
 
 int c_chan_push(struct chan *chan, struct value value)
 __CPROVER_requires(CHAN_OBJ(chan) && CHAN_WF(chan) && CB_SHAPE(chan))
-__CPROVER_requires(WBIND(chan_push, WITNESS_CHAN(chan) && w_vt == value.type && w_vi == value.i) && DIAG_PRE)
+__CPROVER_requires(WBIND(chan_push, WITNESS_CHAN(chan) && w_vt == value.type && w_vi == value.i && w_cbret == g_cb_ret) && DIAG_PRE)
 __CPROVER_requires(BIND_TOP(chan) && g_dirty == chan->is_dirty && g_cb_calls < 1000u)
+__CPROVER_requires(WBIND(chan_push, w_top_t == g_top_t && w_top_i == g_top_i))
 __CPROVER_requires(g_ignored == (chan->type == CHAN_STACK && WRITABLE(chan) && PUSH_DUP_IGNORED(chan, value)))
 __CPROVER_requires(g_cb_runs == (!chan->is_dirty && chan->dirty_cb != NULL))
 __CPROVER_requires(g_legal == (chan->type == CHAN_STACK && WRITABLE(chan) && !PUSH_DUP_REFUSED(chan, value) &&
@@ -177,7 +178,7 @@ WITNESS(chan_pop);
 int c_chan_pop(struct chan *chan, struct value evalue)
 __CPROVER_requires(CHAN_OBJ(chan) && CHAN_WF(chan) && CB_SHAPE(chan))
 __CPROVER_requires(WBIND(chan_pop, WITNESS_CHAN(chan) && w_vt == evalue.type && w_vi == evalue.i &&
-	w_top_t == g_top_t && w_top_i == g_top_i) && DIAG_PRE)
+	w_top_t == g_top_t && w_top_i == g_top_i && w_cbret == g_cb_ret) && DIAG_PRE)
 __CPROVER_requires(BIND_TOP_F(chan) && g_dirty == chan->is_dirty && g_cb_calls < 1000u)
 __CPROVER_requires(g_cb_runs == (!chan->is_dirty && chan->dirty_cb != NULL))
 /* a leave event must match the most recent unmatched enter event */
@@ -224,6 +225,7 @@ __CPROVER_requires(CHAN_OBJ(chan) && CHAN_WF(chan) && CHAN_TYPE_WF(chan))
 __CPROVER_requires(__CPROVER_is_fresh(value, sizeof(*value)))
 __CPROVER_requires(WBIND(chan_read, w_type == (int) chan->type && w_n == spec_n(chan)))
 __CPROVER_requires(BIND_TOP(chan) && g_single_t == spec_single_t(chan) && g_single_i == spec_single_i(chan))
+__CPROVER_requires(WBIND(chan_read, w_top_t == g_top_t && w_top_i == g_top_i && w_single_t == g_single_t && w_single_i == g_single_i))
 __CPROVER_assigns(*value)
 __CPROVER_ensures(__CPROVER_return_value == 0)
 /* the timeline shows the innermost open region, nothing (null) when none is open */
@@ -248,7 +250,8 @@ WITNESS(chan_set);
 
 int c_chan_set(struct chan *chan, struct value value)
 __CPROVER_requires(CHAN_OBJ(chan) && CB_SHAPE(chan))
-__CPROVER_requires(WBIND(chan_set, WITNESS_CHAN(chan) && w_vt == value.type && w_vi == value.i) && DIAG_PRE)
+__CPROVER_requires(WBIND(chan_set, WITNESS_CHAN(chan) && w_vt == value.type && w_vi == value.i && w_cbret == g_cb_ret &&
+	w_single_t == spec_single_t(chan) && w_single_i == spec_single_i(chan)) && DIAG_PRE)
 __CPROVER_requires(g_dirty == chan->is_dirty && g_cb_calls < 1000u)
 __CPROVER_requires(g_single_t == spec_single_t(chan) && g_single_i == spec_single_i(chan))
 __CPROVER_requires(g_ignored == (chan->type == CHAN_SINGLE && WRITABLE(chan) && PUSH_DUP_IGNORED(chan, value)))
@@ -289,6 +292,8 @@ __CPROVER_requires(CHAN_OBJ(chan) && CHAN_WF(chan) && CHAN_TYPE_WF(chan))
 __CPROVER_requires(WBIND(chan_flush, w_type == (int) chan->type && w_n == spec_n(chan) && w_dirty == chan->is_dirty) && DIAG_PRE)
 __CPROVER_requires(BIND_TOP(chan) && g_single_t == spec_single_t(chan) && g_single_i == spec_single_i(chan))
 __CPROVER_requires(g_dirty == chan->is_dirty)
+__CPROVER_requires(WBIND(chan_flush, w_top_t == g_top_t && w_top_i == g_top_i && w_single_t == g_single_t && w_single_i == g_single_i &&
+	w_last_t == spec_last_t(chan) && w_last_i == spec_last_i(chan)))
 __CPROVER_assigns(chan->is_dirty, chan->last_value, DIAG_FRAME)
 __CPROVER_ensures((__CPROVER_return_value == 0) == (g_dirty != 0))
 __CPROVER_ensures(__CPROVER_return_value == 0 || __CPROVER_return_value == -1)
